@@ -93,6 +93,8 @@ class LinSolve(Unit):
                         A[i][j] = A[j][i]
             x0 = None
             rhs = g.vec(n, kmax=8, jmax=1)
+            if r.random() < 0.12:
+                rhs = [v * 2.0 ** -40 for v in rhs]        # a tiny right-hand side is a right-hand side
             c = r.random()
             if c < 0.25:       # an initial guess that solves the system exactly
                 x0 = g.vec(n, kmax=4, jmax=1)
